@@ -102,6 +102,7 @@ fn main() {
         "c06struct" => tokenlevel::c06struct(&args),
         "c16" => tokenlevel::c16(&args),
         "c17" => cli::c17(&args),
+        "c19big" => tokenlevel::c19big(&args),
         "c16cli" => cli::c16cli(&args),
         "c18" => tokenlevel::c18(&args),
         "c19" => tokenlevel::c19(&args),
@@ -112,6 +113,10 @@ fn main() {
         }
         "curated" => {
             families::curated_status(&args);
+            return;
+        }
+        "c19big-child" => {
+            tokenlevel::c19big_child(&args);
             return;
         }
         "probe-emit" => {
